@@ -597,11 +597,15 @@ def deadlock_cases():
 
 
 def neighbour_cases(findings):
-    """shapes next to the reproducers that hold on this tree (they delimit the avoided classes): ordinary cases"""
+    """shapes next to the reproducers that hold on this tree (they delimit the avoided classes), and the
+    reproducers of findings marked fixed (regression cases): ordinary cases"""
     out = []
     for k in findings:
         for i, c in enumerate(k.get("neighbours_that_hold", [])):
             out.append(_fixed_case(c, "%s-nb%d" % (k["id"], i)))
+        if k.get("status") == "fixed":
+            for i, c in enumerate(k.get("reproducer", {}).get("cases", [])):
+                out.append(_fixed_case(c, "%s-fixed%d" % (k["id"], i)))
     return out
 
 
@@ -715,7 +719,7 @@ def run(tier, seed):
     r = Rng(seed, "c17")
     process(cx, neighbour_cases(findings) + deadlock_cases(), "fixed")
     n_exh, n_reps, n_node = stream_exhaustive(cx, 4 if thorough else 3, 60000 if thorough else 5000)
-    stream_random(cx, r.fork("random"), 40000 if thorough else 1500, avoid)
+    stream_random(cx, r.fork("random"), int(os.environ.get("C17_RANDOM") or (40000 if thorough else 1000)), avoid)
     replay_known(cx, findings)
     chk.assumptions = [
         "node 20's ESM loader (V8) is the reference for body order and outcomes; for graphs with dynamic import() the interleaving "
@@ -736,7 +740,8 @@ def run(tier, seed):
              "node agreed; distinct by hash of (sources, entry, second entry)",
         samples=cx.samples,
         extra={
-            "exhaustive": {"max_nodes": 4 if thorough else 3, "graphs_x_entries": n_exh, "behaviour_classes": n_reps, "classes_run_on_node": n_node,
+            "exhaustive": False,  # the run as a whole (random graphs) is exploration; the enumerated sub-space is described below
+            "exhaustive_subspace": {"max_nodes": 4 if thorough else 3, "graphs_x_entries": n_exh, "behaviour_classes": n_reps, "classes_run_on_node": n_node,
                            "sub_space_complete": cx.hist.get("exhaustive_checked", 0) == n_exh,
                            "complete_for": "synchronous bodies, bare imports in increasing target order"},
             "histograms": cx.hist,
